@@ -1175,6 +1175,11 @@ def judge_program_only_impl(col, p):
         for ti in sorted(x for x in sites if x is not None):
             ic = [c for c in calls_by_line.get(line, []) if col_to_tok(gt, c["col"]) == ti]
             judge_site(col, p, k, ti, gt, st, ic[0] if ic else None, None, errs_by_line.get(line, []), stats)
+    mine = [x for x in CTX.get('pending', []) if x[0] is p]
+    CTX['pending'] = [x for x in CTX.get('pending', []) if x[0] is not p]
+    for (_, k, key, what) in mine:
+        if (p.idx, k) not in CTX.get('flagged', set()):
+            col.violation(key, what, replay_of(p, k))
 
 
 def reduced_replay(p, k, i, key):
@@ -1185,7 +1190,7 @@ def reduced_replay(p, k, i, key):
         r = p.spec.resolve(st[:group_end(st, i)], i)
         keep = {id(a.fn) for a in (r or {}).get('matching', [])} if r else set()
         q = Prog()
-        q.idx, q.clean, q.backend = p.idx, p.clean, False
+        q.idx, q.clean, q.backend = -1 - p.idx, p.clean, False
         q.funcs = [f for f in p.funcs if id(f) in keep or (f.struct and 'vp' in p.calls[k])]
         if not q.funcs:
             return None
@@ -1236,6 +1241,12 @@ def code_less(b, a):
     return b.fn.refs() > a.fn.refs()
 
 
+def flagv(ck, p, k, key, what, replay):
+    """a violation at statement k of program p (also when it is a known finding): later legs skip that statement"""
+    CTX.setdefault('flagged', set()).add((p.idx, k))
+    return ck.violation(key, what, replay)
+
+
 def judge_site(ck, p, k, i, gtoks, stoks, impl_call, m, errs_on_line, stats):
     """one call site: implementation vs property (oracle) and vs model"""
     end = group_end(stoks, i)
@@ -1248,14 +1259,14 @@ def judge_site(ck, p, k, i, gtoks, stoks, impl_call, m, errs_on_line, stats):
     if r is None:
         stats['nomatch'] += 1
         if impl_call is not None:
-            ck.violation("resolve call-without-matching-alias", "%s: a call to %s was built although no alias matches here" % (site, impl_call["fn"]), replay_of(p, k, dict(token=i), key="resolve call-without-matching-alias"))
+            flagv(ck, p, k, "resolve call-without-matching-alias", "%s: a call to %s was built although no alias matches here" % (site, impl_call["fn"]), replay_of(p, k, dict(token=i), key="resolve call-without-matching-alias"))
         if m and m["kind"] != "NONE":
             return "model finds candidates %s where the oracle finds none (%s)" % (m["cands"], site)
         return None
     if r['kind'] == 'error':
         stats['untyped'] += 1
         if not errs_on_line:
-            ck.violation("resolve no-type-match-accepted", "%s: no alias type-matches (%s match by tokens) but no error was reported" % (site, len(r['matching'])), replay_of(p, k, dict(token=i), key="resolve no-type-match-accepted"))
+            flagv(ck, p, k, "resolve no-type-match-accepted", "%s: no alias type-matches (%s match by tokens) but no error was reported" % (site, len(r['matching'])), replay_of(p, k, dict(token=i), key="resolve no-type-match-accepted"))
         if m:
             if m["kind"] == "SEL":
                 # the implementation may "type-match" an undeclared name against a type parameter (see typed_if_undeclared_is_void)
@@ -1283,7 +1294,7 @@ def judge_site(ck, p, k, i, gtoks, stoks, impl_call, m, errs_on_line, stats):
     if len(r['typed']) >= 2:
         stats['multi_typed'] += 1
     if impl_call is None:
-        ck.violation("resolve call-missing", "%s: the property selects %s but no call was built" % (site, describe(r['alias'])), replay_of(p, k, dict(token=i), key="resolve call-missing"))
+        flagv(ck, p, k, "resolve call-missing", "%s: the property selects %s but no call was built" % (site, describe(r['alias'])), replay_of(p, k, dict(token=i), key="resolve call-missing"))
         return None
     iid = impl_identity(p, impl_call, gtoks, stoks)
     if iid not in best_ids:
@@ -1309,19 +1320,19 @@ def judge_site(ck, p, k, i, gtoks, stoks, impl_call, m, errs_on_line, stats):
                     kind = kind or ("binding", a)
             if kind and kind[0] == "negation":
                 key = "resolve negation-lost fn=%s" % iid[0][0]
-                ck.violation(key, "%s: the alias %s was used but the call is %snegated" % (site, describe(kind[1]), "" if iid[1] else "not "), replay_of(p, k, dict(token=i), key=key))
+                flagv(ck, p, k, key, "%s: the alias %s was used but the call is %snegated" % (site, describe(kind[1]), "" if iid[1] else "not "), replay_of(p, k, dict(token=i), key=key))
             elif kind and kind[0] == "binding":
                 key = "resolve binding-not-by-name fn=%s" % iid[0][0]
-                ck.violation(key, "%s: %s was called through %s but its arguments are bound %s" % (site, iid[0][0], describe(kind[1]), sorted(iid[2])), replay_of(p, k, dict(token=i), key=key))
+                flagv(ck, p, k, key, "%s: %s was called through %s but its arguments are bound %s" % (site, iid[0][0], describe(kind[1]), sorted(iid[2])), replay_of(p, k, dict(token=i), key=key))
             elif kind and kind[0] == "extent":
                 key = "resolve call-extent fn=%s" % iid[0][0]
-                ck.violation(key, "%s: %s was called through %s but the call ends at token %d" % (site, iid[0][0], describe(kind[1]), iid[3]), replay_of(p, k, dict(token=i), key=key))
+                flagv(ck, p, k, key, "%s: %s was called through %s but the call ends at token %d" % (site, iid[0][0], describe(kind[1]), iid[3]), replay_of(p, k, dict(token=i), key=key))
             else:
-                ck.violation("resolve unknown-target", "%s: called %s (negated=%s) with arguments %s, not an alias that matches here" % (site, iid[0], iid[1], sorted(iid[2])), replay_of(p, k, dict(token=i), key="resolve unknown-target"))
+                flagv(ck, p, k, "resolve unknown-target", "%s: called %s (negated=%s) with arguments %s, not an alias that matches here" % (site, iid[0], iid[1], sorted(iid[2])), replay_of(p, k, dict(token=i), key="resolve unknown-target"))
         elif chosen not in r['typed'] and errs_on_line and typed_if_undeclared_is_void(p, chosen, sub, i):
             stats['undeclared_argument_rejected'] = stats.get('undeclared_argument_rejected', 0) + 1
         elif chosen not in r['typed']:
-            ck.violation("resolve type-mismatched-choice", "%s: chose %s whose parameter types do not equal the argument types; expected one of %s" % (
+            flagv(ck, p, k, "resolve type-mismatched-choice", "%s: chose %s whose parameter types do not equal the argument types; expected one of %s" % (
                 site, describe(chosen), [describe(a) for a, _ in r['best']]), replay_of(p, k, dict(token=i), key="resolve type-mismatched-choice"))
         else:
             doms = [b for b in r['typed'] if Spec.dominates(b, chosen)]
@@ -1329,12 +1340,12 @@ def judge_site(ck, p, k, i, gtoks, stoks, impl_call, m, errs_on_line, stats):
             code_max = not any(code_less(b, chosen) for b in r['typed'])
             cause = "nested-generic-uncounted" if (nested and code_max) else "other"
             why = "longer" if any(len(b.pat) > len(chosen.pat) for b in doms) else ("non-generic" if any(not b.fn.generic for b in doms) and chosen.fn.generic else "more-Referenz")
-            ck.violation("resolve dominated-choice cause=%s" % cause,
+            flagv(ck, p, k, "resolve dominated-choice cause=%s" % cause,
                          "%s: chose %s although %s also matches and type-matches and must be preferred (%s)" % (site, describe(chosen), describe(doms[0]), why),
                          replay_of(p, k, dict(token=i, chosen=describe(chosen), preferred=describe(doms[0])), key="resolve dominated-choice cause=%s" % cause))
             stats['dominated'] += 1
     elif r['end'] == len(sub) - 1 and end == len(stoks) and i == 0 and errs_on_line:
-        ck.violation("resolve error-on-valid-call", "%s: the call resolves for the property but diagnostics were reported: %s" % (site, errs_on_line[:2]), replay_of(p, k))
+        CTX.setdefault('pending', []).append((p, k, "resolve error-on-valid-call", "%s: the call resolves for the property but diagnostics were reported: %s" % (site, errs_on_line[:2])))
     # ---------------- implementation against the model ----------------
     if m is None:
         return None
@@ -1500,6 +1511,9 @@ def alias_leg(ck, b, tt, callx, model, root, progs):
         if len(ck.cov["samples"]) < 4 and m["kind"] == "SEL" and len(m["cands"]) >= 3:
             ck.sample(dict(call=p.calls[k] + ".", candidates=[describe({x.aid: x for x in p.aliases}[c]) + (" [types ok]" if ok else "") for c, ok in m["cands"]],
                            implementation=(ic or {}).get("fn"), model=m["aid"], bound={n: v["text"] for n, v in ((ic or {}).get("args") or {}).items()}))
+    for (p, k, key, what) in CTX.pop('pending', []):
+        if (p.idx, k) not in CTX.get('flagged', set()):
+            ck.violation(key, what, replay_of(p, k))
     if mismatches:
         first = mismatches[0]
         if isinstance(first, tuple):
@@ -1890,6 +1904,9 @@ def backend_leg(ck, b, tt, callx, model, root, nprog, budget_s):
         clean = True
         for k, text in enumerate(p.calls):
             st = spec_tokens(text + ".")
+            if p.spec.resolve(st, 0) is None:
+                exp.append({(None, (), None)})      # no alias here: the statement prints nothing
+                continue
             if text.startswith("XAUSW ("):
                 e = expected_lines(p, st, 2, len(st) - 1)
                 if e is None or e[1]['end'] != len(st) - 2:
@@ -1916,6 +1933,9 @@ def backend_leg(ck, b, tt, callx, model, root, nprog, budget_s):
             ck.violation("backend run-failed", "p%d: exit %s, %d of %d statements printed their marker; stderr %s" % (p.idx, rc, len(segs) - 1, len(p.calls), err[-200:]), dict(files=p.files, opt=p.idx % 3, stdout=out[-2000:]))
             continue
         for k, alts in enumerate(exp):
+            if (p.idx, k) in CTX.get('flagged', set()):
+                bstats['flagged_by_frontend'] = bstats.get('flagged_by_frontend', 0) + 1
+                continue
             bstats['statements'] += 1
             seg = segs[k]
             ok = False
